@@ -895,3 +895,59 @@ func rpo(fn *ssa.Function) []*ssa.BasicBlock {
 	}
 	return post
 }
+
+// Expr evaluates an expression tree (constants, conversions, unary and binary
+// integer and Boolean operators) over the leaves given in env; anything else
+// is Unsupported.
+func (e *Eval) Expr(v ssa.Value, env map[ssa.Value]Val) (res Val, err error) {
+	defer func() {
+		if r := recover(); r != nil {
+			if u, ok := r.(*Unsupported); ok {
+				err = u
+				return
+			}
+			panic(r)
+		}
+	}()
+	return e.expr(v, env, 0), nil
+}
+
+func (e *Eval) expr(v ssa.Value, env map[ssa.Value]Val, depth int) Val {
+	if x, ok := env[v]; ok {
+		return x
+	}
+	if depth > 12 {
+		unsupported("expression too deep")
+	}
+	switch x := v.(type) {
+	case *ssa.Const:
+		return e.constVal(x)
+	case *ssa.Convert:
+		a := e.expr(x.X, env, depth+1)
+		if a.Kind != KBits {
+			unsupported("conversion of a non-integer")
+		}
+		w, sg, ok := widthOf(x.Type())
+		if !ok {
+			unsupported("unsupported conversion %s", x)
+		}
+		return Val{Kind: KBits, Bits: e.extend(a, w), Signed: sg}
+	case *ssa.UnOp:
+		a := e.expr(x.X, env, depth+1)
+		switch {
+		case x.Op == token.NOT && a.Kind == KBits && len(a.Bits) == 1:
+			return BoolVal(e.M.Not(a.Bits[0]))
+		case x.Op == token.XOR && a.Kind == KBits:
+			nb := make([]int, len(a.Bits))
+			for i := range nb {
+				nb[i] = e.M.Not(a.Bits[i])
+			}
+			return Val{Kind: KBits, Bits: nb, Signed: a.Signed}
+		}
+		unsupported("unsupported unary operator %s", x)
+	case *ssa.BinOp:
+		return e.binop(x.Parent(), x, e.expr(x.X, env, depth+1), e.expr(x.Y, env, depth+1))
+	}
+	unsupported("unsupported leaf %s", v)
+	return Val{}
+}
